@@ -41,7 +41,8 @@ pub fn plan(tier: &str, prop: &str) -> Vec<SubRun> {
         v.push(SubRun { key: "String", alphabet: "tiny", depth: 3, cfg: c(2, true) });
         return v;
     }
-    if tier == "quick" {
+    // thorough tier of the properties for which SEQ is secondary: the primary quick plan
+    if tier == "quick" || matches!(prop, "C06" | "C20" | "C18") {
         for n in [1, 2, 10_000] {
             v.push(SubRun { key: "String", alphabet: "base", depth: 4, cfg: c(n, false) });
         }
